@@ -1,4 +1,521 @@
+//! `fvh codec` — in-process driver of the REAL `RespParser` / `serialize_resp_frame` (property C20).
+//!
+//! stdin: one JSON request per line; stdout: JSON lines, flushed after every line, so that a crash
+//! (panic, abort on allocation failure, stack overflow) is attributable to the request that got no answer.
+//! Nothing is caught here on purpose: a crash of this child IS the observation.
+//!
+//!   {"op":"parse","hex":H,"chunks":SPEC}
+//!       -> {"results":[{"frame":T}|{"err":msg}..],"peak_alloc":n,"left":0|-1}
+//!   {"op":"roundtrip","tree":T}
+//!       -> {"hex":H,"consumed":n,"results":[..],"peak_alloc":n,"left":0|-1}
+//!   {"op":"bytes","hex":H,"chunkings":[SPEC..],"tag":s}      -> one trace event {"k":"bytes",..}
+//!   {"op":"rt","tree":T,"tag":s}                              -> one trace event {"k":"rt",..}
+//!   {"op":"enum","alphabet":H,"len":n,"mode":"all"|"diff","chunkings":"std"|"all"}
+//!       -> a "bytes" event per string (mode all) / per string whose runs differ or exceed the allocation
+//!          bound (mode diff), then {"k":"enumsum","strings":..,"runs":..,"emitted":..}
+//!
+//! SPEC (how the bytes are fed): [] = whole, [n1,n2,..] = chunk sizes (the rest, if any, is a last chunk),
+//! "each1" = one byte at a time.  After every feed `parse()` is called until Ok(None) or Err; after an Err
+//! nothing more is fed (the server closes the connection).
+//! `left`: the private read offset is not observable; 0 means a sentinel frame fed afterwards came out as the
+//! very next frame (nothing but white space was left), -1 = unknown / something was left / the run ended in Err.
+//! `peak_alloc`: maximum number of heap bytes attributable to the parser (its buffer, temporaries and the frames
+//! it returned) during the run, measured by the counting global allocator below.
+use crate::jsonx;
+use ferrous::protocol::parser::parse_resp_frame;
+use ferrous::protocol::{serialize_resp_frame, RespParser};
+use ferrous::RespFrame;
+use serde_json::{json, Value};
+use std::alloc::{GlobalAlloc, Layout, System};
+use std::io::{BufRead, Write};
+use std::sync::atomic::{AtomicBool, AtomicIsize, Ordering};
+use std::sync::Arc;
+
+// ---------------------------------------------------------------------------------------------------------
+// Counting allocator.  Inactive (one relaxed load per call) unless `fvh codec` switches it on.
+pub struct Counting;
+static ON: AtomicBool = AtomicBool::new(false);
+static CUR: AtomicIsize = AtomicIsize::new(0);
+static PEAK: AtomicIsize = AtomicIsize::new(0);
+
+#[inline]
+fn add(n: usize) {
+    let c = CUR.fetch_add(n as isize, Ordering::Relaxed) + n as isize;
+    PEAK.fetch_max(c, Ordering::Relaxed);
+}
+#[inline]
+fn sub(n: usize) {
+    CUR.fetch_sub(n as isize, Ordering::Relaxed);
+}
+
+unsafe impl GlobalAlloc for Counting {
+    unsafe fn alloc(&self, l: Layout) -> *mut u8 {
+        let p = System.alloc(l);
+        if !p.is_null() && ON.load(Ordering::Relaxed) {
+            add(l.size());
+        }
+        p
+    }
+    unsafe fn alloc_zeroed(&self, l: Layout) -> *mut u8 {
+        let p = System.alloc_zeroed(l);
+        if !p.is_null() && ON.load(Ordering::Relaxed) {
+            add(l.size());
+        }
+        p
+    }
+    unsafe fn dealloc(&self, p: *mut u8, l: Layout) {
+        System.dealloc(p, l);
+        if ON.load(Ordering::Relaxed) {
+            sub(l.size());
+        }
+    }
+    unsafe fn realloc(&self, p: *mut u8, l: Layout, new: usize) -> *mut u8 {
+        let q = System.realloc(p, l, new);
+        if !q.is_null() && ON.load(Ordering::Relaxed) {
+            if new >= l.size() {
+                add(new - l.size());
+            } else {
+                sub(l.size() - new);
+            }
+        }
+        q
+    }
+}
+
+#[global_allocator]
+static GLOBAL: Counting = Counting;
+
+/// Accounting of the heap attributable to the code under test: `win` runs a piece of it.
+struct Meter {
+    retained: isize,
+    peak: isize,
+}
+impl Meter {
+    fn new() -> Self {
+        Meter { retained: 0, peak: 0 }
+    }
+    fn win<T>(&mut self, f: impl FnOnce() -> T) -> T {
+        let c0 = CUR.load(Ordering::Relaxed);
+        PEAK.store(c0, Ordering::Relaxed);
+        let r = f();
+        let pk = PEAK.load(Ordering::Relaxed) - c0;
+        if self.retained + pk > self.peak {
+            self.peak = self.retained + pk;
+        }
+        self.retained += CUR.load(Ordering::Relaxed) - c0;
+        r
+    }
+    fn peak(&self) -> u64 {
+        (self.peak.max(0) as u64).min(2_000_000_000) // TLC integers are 32 bit
+    }
+}
+
+// ---------------------------------------------------------------------------------------------------------
+// JSON tree -> RespFrame (inverse of jsonx::frame)
+fn unbytes(v: &Value) -> Vec<u8> {
+    v.as_array().map(|a| a.iter().map(|x| x.as_u64().unwrap_or(0) as u8).collect()).unwrap_or_default()
+}
+
+fn unframe(v: &Value) -> Result<RespFrame, String> {
+    let t = v.get("t").and_then(|t| t.as_str()).ok_or("tree without t")?;
+    let list = |x: &Value| -> Result<Vec<RespFrame>, String> {
+        x.as_array().ok_or("v is not a list")?.iter().map(unframe).collect()
+    };
+    Ok(match t {
+        "st" => RespFrame::SimpleString(Arc::new(unbytes(&v["v"]))),
+        "err" => RespFrame::Error(Arc::new(unbytes(&v["v"]))),
+        "int" => RespFrame::Integer(
+            String::from_utf8(unbytes(&v["v"])).map_err(|e| e.to_string())?.parse::<i64>().map_err(|e| e.to_string())?,
+        ),
+        "bulk" => RespFrame::BulkString(Some(Arc::new(unbytes(&v["v"])))),
+        "nil" => RespFrame::BulkString(None),
+        "arr" => RespFrame::Array(Some(list(&v["v"])?)),
+        "nilarr" => RespFrame::Array(None),
+        "null3" => RespFrame::Null,
+        "bool" => RespFrame::Boolean(v["v"].as_i64().unwrap_or(0) != 0),
+        "dbl" => {
+            let h = String::from_utf8(unbytes(&v["v"])).map_err(|e| e.to_string())?;
+            RespFrame::Double(f64::from_bits(u64::from_str_radix(&h, 16).map_err(|e| e.to_string())?))
+        }
+        "map" => {
+            let mut m = Vec::new();
+            for p in v["v"].as_array().ok_or("v is not a list")? {
+                m.push((unframe(&p[0])?, unframe(&p[1])?));
+            }
+            RespFrame::Map(m)
+        }
+        "set3" => RespFrame::Set(list(&v["v"])?),
+        _ => return Err(format!("unknown tree type {}", t)),
+    })
+}
+
+/// nesting depth without recursion (a frame the parser built may be too deep for recursive code)
+fn depth(f: &RespFrame) -> usize {
+    let mut max = 0;
+    let mut stack: Vec<(&RespFrame, usize)> = vec![(f, 1)];
+    while let Some((x, d)) = stack.pop() {
+        if d > max {
+            max = d;
+        }
+        match x {
+            RespFrame::Array(Some(v)) | RespFrame::Set(v) => stack.extend(v.iter().map(|y| (y, d + 1))),
+            RespFrame::Map(m) => {
+                for (k, v) in m {
+                    stack.push((k, d + 1));
+                    stack.push((v, d + 1));
+                }
+            }
+            _ => {}
+        }
+    }
+    max
+}
+
+const DEEP: usize = 512;
+
+/// JSON of a frame the parser returned; very deep ones are summarised and leaked (rendering and dropping
+/// them recursively would overflow the stack of this harness, which is not the parser's fault)
+fn render(f: RespFrame) -> Value {
+    let d = depth(&f);
+    if d > DEEP {
+        std::mem::forget(f);
+        return json!({"t":"deep","v":d});
+    }
+    jsonx::frame(&f)
+}
+
+/// structural equality; doubles by bit pattern
+fn feq(a: &RespFrame, b: &RespFrame) -> bool {
+    use RespFrame::*;
+    match (a, b) {
+        (SimpleString(x), SimpleString(y)) | (Error(x), Error(y)) => x == y,
+        (Integer(x), Integer(y)) => x == y,
+        (BulkString(x), BulkString(y)) => x == y,
+        (Array(None), Array(None)) | (Null, Null) | (NoResponse, NoResponse) => true,
+        (Array(Some(x)), Array(Some(y))) | (Set(x), Set(y)) => x.len() == y.len() && x.iter().zip(y).all(|(p, q)| feq(p, q)),
+        (Boolean(x), Boolean(y)) => x == y,
+        (Double(x), Double(y)) => x.to_bits() == y.to_bits(),
+        (Map(x), Map(y)) => x.len() == y.len() && x.iter().zip(y).all(|(p, q)| feq(&p.0, &q.0) && feq(&p.1, &q.1)),
+        _ => false,
+    }
+}
+
+// ---------------------------------------------------------------------------------------------------------
+#[derive(Clone)]
+enum Spec {
+    Sizes(Vec<usize>),
+    Each(usize),
+}
+
+impl Spec {
+    fn from_json(v: &Value) -> Spec {
+        match v {
+            Value::String(s) if s.starts_with("each") => Spec::Each(s[4..].parse().unwrap_or(1).max(1)),
+            Value::Array(a) => Spec::Sizes(a.iter().map(|x| x.as_u64().unwrap_or(0) as usize).collect()),
+            _ => Spec::Sizes(vec![]),
+        }
+    }
+    fn to_json(&self) -> Value {
+        match self {
+            Spec::Sizes(v) => json!(v),
+            Spec::Each(n) => json!(format!("each{}", n)),
+        }
+    }
+    fn cuts<'a>(&self, data: &'a [u8]) -> Vec<&'a [u8]> {
+        let mut out = Vec::new();
+        let mut i = 0;
+        match self {
+            Spec::Sizes(v) => {
+                for &n in v {
+                    let j = (i + n).min(data.len());
+                    out.push(&data[i..j]);
+                    i = j;
+                }
+                if i < data.len() || out.is_empty() {
+                    out.push(&data[i..]);
+                }
+            }
+            Spec::Each(n) => {
+                while i < data.len() {
+                    let j = (i + n).min(data.len());
+                    out.push(&data[i..j]);
+                    i = j;
+                }
+                if out.is_empty() {
+                    out.push(data);
+                }
+            }
+        }
+        out
+    }
+}
+
+struct Run {
+    results: Vec<Result<RespFrame, String>>,
+    peak: u64,
+    left: i64,
+}
+
+/// one connection's life: feed the chunks to a fresh parser of the code under test
+fn run(data: &[u8], spec: &Spec) -> Run {
+    let chunks = spec.cuts(data);
+    let mut results = Vec::new();
+    let mut m = Meter::new();
+    let mut p = m.win(RespParser::new);
+    let mut dead = false;
+    'feed: for c in chunks {
+        m.win(|| p.feed(c));
+        loop {
+            match m.win(|| p.parse()) {
+                Ok(Some(f)) => results.push(Ok(f)),
+                Ok(None) => break,
+                Err(e) => {
+                    results.push(Err(e.to_string()));
+                    dead = true;
+                    break 'feed;
+                }
+            }
+        }
+    }
+    let peak = m.peak();
+    let mut left = -1;
+    if !dead {
+        p.feed(b"+Z\r\n");
+        if let Ok(Some(RespFrame::SimpleString(z))) = p.parse() {
+            if z.as_slice() == b"Z" {
+                left = 0;
+            }
+        }
+    }
+    Run { results, peak, left }
+}
+
+fn same_results(a: &Run, b: &Run) -> bool {
+    a.results.len() == b.results.len()
+        && a.results.iter().zip(&b.results).all(|(x, y)| match (x, y) {
+            (Ok(f), Ok(g)) => feq(f, g),
+            (Err(_), Err(_)) => true,
+            _ => false,
+        })
+}
+
+/// results in the form of the `parse` op
+fn results_plain(r: Vec<Result<RespFrame, String>>) -> Value {
+    Value::Array(r.into_iter().map(|x| match x {
+        Ok(f) => json!({"frame": render(f)}),
+        Err(e) => json!({"err": e}),
+    }).collect())
+}
+
+/// results in the form of trace events (uniform records for TLC)
+fn results_event(r: Vec<Result<RespFrame, String>>) -> Value {
+    Value::Array(r.into_iter().map(|x| match x {
+        Ok(f) => json!({"k":"f","f": render(f)}),
+        Err(e) => json!({"k":"err","m": e}),
+    }).collect())
+}
+
+fn run_event(spec: &Spec, r: Run) -> Value {
+    json!({"chunks": spec.to_json(), "results": results_event(r.results), "peak": r.peak, "left": r.left})
+}
+
+/// whole, every single cut (sampled when long), one byte at a time (when not too long)
+fn std_chunkings(n: usize) -> Vec<Spec> {
+    let mut v = vec![Spec::Sizes(vec![])];
+    if n >= 2 {
+        if n <= 64 {
+            for c in 1..n {
+                v.push(Spec::Sizes(vec![c]));
+            }
+        } else {
+            for c in [1, 2, n / 3, n / 2, n - 2, n - 1] {
+                v.push(Spec::Sizes(vec![c]));
+            }
+        }
+    }
+    if n >= 3 && n <= 4096 {
+        v.push(Spec::Each(1));
+    }
+    v
+}
+
+/// all 2^(n-1) chunkings
+fn all_chunkings(n: usize) -> Vec<Spec> {
+    if n < 2 {
+        return vec![Spec::Sizes(vec![])];
+    }
+    let mut v = Vec::new();
+    for mask in 0u32..(1u32 << (n - 1)) {
+        let mut sizes = Vec::new();
+        let mut last = 0;
+        for c in 1..n {
+            if mask & (1 << (c - 1)) != 0 {
+                sizes.push(c - last);
+                last = c;
+            }
+        }
+        v.push(Spec::Sizes(sizes));
+    }
+    v
+}
+
+fn bound(n: usize) -> u64 {
+    64 * n as u64 + 65536
+}
+
+fn bytes_event(data: &[u8], specs: &[Spec], tag: &str, runs: Vec<Run>) -> Value {
+    let mut ev = json!({"k":"bytes","n":data.len(),"tag":tag,
+        "runs": Value::Array(specs.iter().zip(runs).map(|(s, r)| run_event(s, r)).collect())});
+    if data.len() <= 64 {
+        ev["b"] = jsonx::bytes(data);
+    }
+    if data.len() <= 512 {
+        ev["hex"] = json!(jsonx::hex(data));
+    }
+    ev
+}
+
+fn emit(out: &mut impl Write, v: &Value) {
+    let _ = writeln!(out, "{}", v);
+    let _ = out.flush();
+}
+
+/// advance the odometer; false when it wrapped around
+fn next_idx(idx: &mut [usize], base: usize) -> bool {
+    for i in (0..idx.len()).rev() {
+        idx[i] += 1;
+        if idx[i] < base {
+            return true;
+        }
+        idx[i] = 0;
+    }
+    false
+}
+
+fn op_enum(req: &Value, out: &mut impl Write) {
+    let alpha = jsonx::unhex(req["alphabet"].as_str().unwrap_or(""));
+    let maxlen = req["len"].as_u64().unwrap_or(0) as usize;
+    let minlen = req["from"].as_u64().unwrap_or(0) as usize;
+    let all_mode = req["mode"].as_str().unwrap_or("all") == "all";
+    let all_chunks = req["chunkings"].as_str().unwrap_or("std") == "all";
+    let (mut strings, mut nruns, mut emitted) = (0u64, 0u64, 0u64);
+    for len in minlen..=maxlen {
+        let specs = if all_chunks { all_chunkings(len) } else { std_chunkings(len) };
+        let mut idx = vec![0usize; len];
+        let mut data = vec![0u8; len];
+        loop {
+            for i in 0..len {
+                data[i] = alpha[idx[i]];
+            }
+            let runs: Vec<Run> = specs.iter().map(|s| run(&data, s)).collect();
+            strings += 1;
+            nruns += runs.len() as u64;
+            let ok = runs.iter().all(|r| same_results(r, &runs[0]) && r.peak <= bound(len));
+            if all_mode || !ok {
+                emitted += 1;
+                emit(out, &bytes_event(&data, &specs, "enum", runs));
+            }
+            if !next_idx(&mut idx, alpha.len()) {
+                break;
+            }
+        }
+    }
+    emit(out, &json!({"k":"enumsum","strings":strings,"runs":nruns,"emitted":emitted,"mode": if all_mode {"all"} else {"diff"}}));
+}
+
+const SUFFIXES: [&[u8]; 6] = [b"\r\n", b"+", b"$1\r\n", b"*", b"PING", b"\x00\xff"];
+
+fn op_rt(req: &Value) -> Value {
+    let tree = &req["tree"];
+    let frame = match unframe(tree) {
+        Ok(f) => f,
+        Err(e) => return json!({"k":"toolerr","what":e}),
+    };
+    let mut buf = Vec::new();
+    if let Err(e) = serialize_resp_frame(&frame, &mut buf) {
+        return json!({"k":"rt","tree":tree,"sererr":e.to_string()});
+    }
+    let specs = std_chunkings(buf.len());
+    let runs: Vec<Value> = specs.iter().map(|s| run_event(s, run(&buf, s))).collect();
+    let c1 = match parse_resp_frame(&buf) {
+        Ok(Some((_, n))) => n as i64,
+        Ok(None) => -1,
+        Err(_) => -2,
+    };
+    let mut sfx = Vec::new();
+    for s in SUFFIXES {
+        let mut b2 = buf.clone();
+        b2.extend_from_slice(s);
+        sfx.push(match parse_resp_frame(&b2) {
+            Ok(Some((f, n))) => json!({"s": jsonx::bytes(s), "c": n, "r": {"k":"f","f": render(f)}}),
+            Ok(None) => json!({"s": jsonx::bytes(s), "c": -1, "r": {"k":"none"}}),
+            Err(e) => json!({"s": jsonx::bytes(s), "c": -2, "r": {"k":"err","m": e.to_string()}}),
+        });
+    }
+    json!({"k":"rt","tag":req["tag"],"tree":tree,"bytes":jsonx::bytes(&buf),"c1":c1,"runs":runs,"sfx":sfx})
+}
+
 pub fn main(_args: &[String]) {
-    eprintln!("codec: not built yet");
-    std::process::exit(2);
+    // absurd allocations must abort this child, not the machine
+    unsafe {
+        let lim = libc::rlimit { rlim_cur: 2u64 << 30, rlim_max: 2u64 << 30 };
+        libc::setrlimit(libc::RLIMIT_AS, &lim);
+    }
+    ON.store(true, Ordering::SeqCst);
+    let stdin = std::io::stdin();
+    let stdout = std::io::stdout();
+    let mut out = stdout.lock();
+    for line in stdin.lock().lines() {
+        let line = match line {
+            Ok(l) => l,
+            Err(_) => break,
+        };
+        if line.trim().is_empty() {
+            continue;
+        }
+        let req: Value = match serde_json::from_str(&line) {
+            Ok(v) => v,
+            Err(e) => {
+                emit(&mut out, &json!({"k":"toolerr","what":format!("bad request: {}", e)}));
+                continue;
+            }
+        };
+        match req["op"].as_str().unwrap_or("") {
+            "parse" => {
+                let data = jsonx::unhex(req["hex"].as_str().unwrap_or(""));
+                let r = run(&data, &Spec::from_json(&req["chunks"]));
+                emit(&mut out, &json!({"results": results_plain(r.results), "peak_alloc": r.peak, "left": r.left}));
+            }
+            "roundtrip" => match unframe(&req["tree"]) {
+                Err(e) => emit(&mut out, &json!({"toolerr": e})),
+                Ok(f) => {
+                    let mut buf = Vec::new();
+                    if let Err(e) = serialize_resp_frame(&f, &mut buf) {
+                        emit(&mut out, &json!({"sererr": e.to_string()}));
+                        continue;
+                    }
+                    let consumed = match parse_resp_frame(&buf) {
+                        Ok(Some((_, n))) => n as i64,
+                        Ok(None) => -1,
+                        Err(_) => -2,
+                    };
+                    let r = run(&buf, &Spec::Sizes(vec![]));
+                    emit(&mut out, &json!({"hex": jsonx::hex(&buf), "consumed": consumed,
+                        "results": results_plain(r.results), "peak_alloc": r.peak, "left": r.left}));
+                }
+            },
+            "bytes" => {
+                let data = jsonx::unhex(req["hex"].as_str().unwrap_or(""));
+                let specs: Vec<Spec> = match req["chunkings"].as_array() {
+                    Some(a) if !a.is_empty() => a.iter().map(Spec::from_json).collect(),
+                    _ => std_chunkings(data.len()),
+                };
+                let runs: Vec<Run> = specs.iter().map(|s| run(&data, s)).collect();
+                emit(&mut out, &bytes_event(&data, &specs, req["tag"].as_str().unwrap_or(""), runs));
+            }
+            "rt" => emit(&mut out, &op_rt(&req)),
+            "enum" => op_enum(&req, &mut out),
+            _ => emit(&mut out, &json!({"k":"toolerr","what":"unknown op"})),
+        }
+    }
 }
